@@ -13,6 +13,7 @@ import Driver.RepStake
 import Driver.Slash
 import Driver.Settle
 import Driver.Ledger
+import Driver.Lifecycle
 import Driver.Oracle
 import Driver.Claim
 open Driver
@@ -39,6 +40,7 @@ def dispatch (fam : String) : Option (List String → String → Option Res) :=
   | "repstake" => some runRepStake
   | "slash" => some runSlash
   | "settle" => some runSettle
+  | "lifecycle" => some runLifecycle
   | "ledgerslash" => some runLedger
   | "ledgersettle" => some runLedger
   | "claim" => some runClaim
